@@ -366,6 +366,17 @@ impl WorldB {
             } else {
                 "stale-or-foreign"
             };
+            if reused && (kind.is_some() || snap_before != snap_after) {
+                // the known cross-session replay was accepted: the implementation's window has moved, the model follows and
+                // stops judging completeness on this session
+                if let Some(id) = sess_id {
+                    if let Some(sx) = self.sessions.get_mut(&id) {
+                        sx.rx_seen.insert(seq);
+                        sx.rx_highest = Some(sx.rx_highest.map(|h| h.max(seq)).unwrap_or(seq));
+                        sx.rx_taint = true;
+                    }
+                }
+            }
             if let Some(k) = kind {
                 let p = if ptype == T_PAYLOAD && !bogus { "C04" } else { "C07" };
                 obs.violate(p, "unauthentic-datagram-had-effect", &format!("{}/{}/{}", why, k, tname(ptype)), format!("datagram {} from {} ({:?})", ix, src, producer));
